@@ -1,9 +1,12 @@
 """C15 — proximal / projection operators.
+translator: translate/gen_prox.py regenerates coq/gen/ProxGen.v from box.hpp / box-constr-problem.hpp / l1-norm.hpp / prox.hpp /
+  indicator-box.hpp on every run; ProxGenEq.v proves every generated definition equal to Prox.v (obligations of Properties_C15.v);
 proof: Properties_C15.v (Prox.v at the real instance);
 correspondence: Prox.v at binary64 (Corr_C15.chk15) vs drv_C15 (the shipped operators);
 oracle: optimality conditions evaluated directly on the implementation's outputs."""
 import math
 from vf.core import *
+from vf import proxgen       # translator G10: translate/gen_prox.py -> coq/gen/ProxGen.v (ProxGenEq.v: generated = Prox.v)
 
 INF = float("inf")
 
@@ -328,8 +331,15 @@ def run(ctx):
                             "a case is distinct by its (operator, l1 kind, per-component outcome class [lower/upper/zero/interior, reported-inactive]) signature")
     ctx.assumptions += ["binary64 rounding is not modelled in the theorems (ideal reals); the float run of the same definitions is compared with tolerance 2^-36",
                         "infinite box sides are None in the model (equal to ±inf doubles when x is finite)",
-                        "nuclear norm: only the optimality condition on implementation outputs is checked (Eigen SVD is an oracle); no theorem"]
+                        "nuclear norm: only the optimality condition on implementation outputs is checked (Eigen SVD is an oracle); no theorem",
+                        "tie 1: translate/gen_prox.py (restricted Eigen coefficient-wise expression/statement grammar, ~1800 lines of Python) is trusted "
+                        "to translate what it accepts faithfully; it is cross-checked on every run by running the GENERATED definitions at binary64 "
+                        "against the implementation (Corr_ProxGen.chk15g); `Some l` bounds are assumed finite"]
+    proxgen.translate(ctx)                 # tie 1: regenerate coq/gen/ProxGen.v from core.REPO; status -> ctx.coverage["translator_prox"]
     ok_proof = check_properties(ctx)
+    if not ok_proof:
+        proxgen.name_obligations(ctx)      # name every ProxGenEq obligation (generated = hand model) that no longer checks
+    proxgen.exact_status(ctx)              # operand-order-exact equalities: informational
     if not build_driver(ctx, "C15"):
         return
     cases = gen_cases(ctx)
@@ -358,3 +368,4 @@ def run(ctx):
                   json.dumps({"input": to_input(cases[k]), "impl_output": outs[k], "model": getattr(ctx, "last_dump", "")}))
     else:
         ctx.coverage["correspondence_disagreements"] = 0
+    proxgen.validate(ctx, terms, idx, cases, outs, to_input)   # translation validation: GENERATED definitions vs implementation at binary64
